@@ -66,7 +66,7 @@ def zero_count_specs():
 
 
 def specs(tier: str):
-    return zero_count_specs() + families.skip_specs("zero", tier) + families.metachar_specs("zero", tier) + families.builtin_specs("zero", tier) + families.c01_specs(tier, kmode="zero", extra_trivia=("cm_nonatomic",)) + recursive_specs()
+    return zero_count_specs() + families.skip_specs("zero", tier) + families.metachar_specs("zero", tier) + families.builtin_specs("zero", tier) + families.recursive_specs("zero", tier, stack=True) + families.c01_specs(tier, kmode="zero", extra_trivia=("cm_nonatomic",)) + recursive_specs()
 
 
 def run(tier: str) -> int:
